@@ -497,6 +497,15 @@ def apply_param_values(B, case):
         offs[g] += n
 
 
+class NodesFn:
+    """normalized grid nodes as a picklable callable (Ocp.save pickles the method's time grid)"""
+    def __init__(self, nodes):
+        self.nodes = list(nodes)
+
+    def __call__(self, N):
+        return list(self.nodes)
+
+
 def make_grid(g, rockit, case=None):
     cls = g.get("class", "Uniform")
     kw = {}
@@ -521,7 +530,7 @@ def make_grid(g, rockit, case=None):
     if cls == "Function":
         nodes = [float(Fr(v)) for v in g["nodes"]]
         from rockit.sampling_method import FunctionGrid
-        return FunctionGrid(lambda N: list(nodes), **kw)
+        return FunctionGrid(NodesFn(nodes), **kw)
     if cls == "Density":
         import casadi as ca
         from rockit.sampling_method import DensityGrid
